@@ -296,9 +296,10 @@ def run(index, rep, tier):
                   "master and worker TreeArrays are constructed with different sources for `%s` (master `%s`, worker `%s`): update() compares this setting and the merge is rejected or silently inconsistent"
                   % (k, norm(mv) if mv is not None else None, chain))
     # labels handed to workers preserve namespace order
-    tl = [n for n in walk_no_nested(par.node) if isinstance(n, ast.Assign) and norm(n.targets[0]) == "taxon_labels"]
+    tlv = get_kwarg(launch_call, "taxon_labels")
+    tl = [n for n in walk_no_nested(par.node) if isinstance(n, ast.Assign) and tlv is not None and norm(n.targets[0]) == norm(tlv)]
     ok = bool(tl) and isinstance(tl[0].value, ast.ListComp) and len(tl[0].value.generators) == 1 \
-        and norm(tl[0].value.generators[0].iter) == "taxon_namespace" and not tl[0].value.generators[0].ifs
+        and norm(tl[0].value.generators[0].iter) == norm(get_kwarg(mcall, "taxon_namespace") or ast.Constant(None)) and not tl[0].value.generators[0].ifs
     rep.check(ok, "R06.5", par.qualname, "taxon_labels order", fn_where(par, tl[0] if tl else None),
               "worker namespaces are rebuilt from the master's labels in the master's order (same label -> same bit)",
               "taxon_labels handed to the workers is not the master's namespace in iteration order: split bitmasks from different workers would not be comparable")
